@@ -402,12 +402,6 @@ pub fn shape_doc(kind: u8, n: usize, sel: u16) -> (String, String) {
         }
         30 => {
             // every built-in function with hostile numeric arguments (NaN, infinities, huge, negative zero) at arities 0..4
-            const FUNS: &[&str] = &[
-                "abs", "ceil", "floor", "fract", "sign", "divmod", "sqrt", "log", "exp", "pow", "sin", "cos", "tan", "asin", "acos", "atan", "random", "randint", "min", "max", "sum", "product", "mean",
-                "clamp", "mix", "eq", "ne", "lt", "le", "gt", "ge", "if", "not", "and", "or", "xor", "swap", "r2p", "p2r", "select", "addv", "subv", "scalev", "head", "tail", "empty", "count", "in",
-                "split", "splitw", "trim", "join", "_",
-            ];
-            const ARGS: &[&str] = &["0/0", "1/0", "-1/0", "nan", "inf", "-inf", "1e38 * 10", "-0", "2147483648", "-2147483649", "1e-45", "'s'", "''", "16777217", "0.5", "-1"];
             let f = FUNS[sel as usize % FUNS.len()];
             let mut x = (sel as usize) * 2654435761 + n;
             let arity = x % 5;
@@ -448,6 +442,27 @@ pub fn shape_doc(kind: u8, n: usize, sel: u16) -> (String, String) {
     (name.to_string(), doc)
 }
 
+/// every built-in function with every pair of hostile arguments (and each one alone, and none)
+fn fn_arg_cases(tier: Tier) -> Vec<Case> {
+    let doc = |f: &str, args: &[&str]| format!("<svg><rect wh=\"3\" text=\"{{{{{f}({})}}}}\"/><rect xy=\"{{{{{f}({})}}}} 0\" wh=\"2\"/></svg>", args.join(", "), args.join(", "));
+    let mut v = Vec::new();
+    for f in FUNS {
+        v.push(doc(f, &[]));
+        for a in ARGS {
+            v.push(doc(f, &[a]));
+            for b in ARGS {
+                v.push(doc(f, &[a, b]));
+                if tier == Tier::Thorough {
+                    for c in ARGS {
+                        v.push(doc(f, &[a, b, c]));
+                    }
+                }
+            }
+        }
+    }
+    v.into_iter().map(|d| Case { input: Blob::T(d), cfg: Cfg::plain(), fam: "fn-args".into(), shape: "fn.hostile-args".into() }).collect()
+}
+
 fn fam_shapes(t: Tier) -> BoxedStrategy<Case> {
     let max_exp = if t == Tier::Quick { 16 } else { 20 };
     (0u8..34, log_uniform(max_exp), any::<u16>(), gen::cfg_small_limits(), prop::bool::weighted(0.7))
@@ -463,6 +478,13 @@ fn fam_shapes(t: Tier) -> BoxedStrategy<Case> {
         })
         .boxed()
 }
+
+const FUNS: &[&str] = &[
+    "abs", "ceil", "floor", "fract", "sign", "divmod", "sqrt", "log", "exp", "pow", "sin", "cos", "tan", "asin", "acos", "atan", "random", "randint", "min", "max", "sum", "product", "mean",
+    "clamp", "mix", "eq", "ne", "lt", "le", "gt", "ge", "if", "not", "and", "or", "xor", "swap", "r2p", "p2r", "select", "addv", "subv", "scalev", "head", "tail", "empty", "count", "in",
+    "split", "splitw", "trim", "join", "_",
+];
+const ARGS: &[&str] = &["0/0", "1/0", "-1/0", "nan", "inf", "-inf", "1e38 * 10", "-0", "2147483648", "-2147483649", "1e-45", "'s'", "''", "16777217", "0.5", "-1"];
 
 // --------------------------------------------------------------------------- family 3: byte-level mutants of the corpus
 
@@ -670,6 +692,7 @@ impl Property for C01 {
             Family::random("docgen-damaged", tier.n(2500, 60_000), fam_docgen),
             Family::random("attr-values", tier.n(6000, 150_000), fam_attrs),
             Family::random("shape", tier.n(1500, 20_000), fam_shapes),
+            Family::enumerated("fn-args", fn_arg_cases(tier)),
             Family::random("mutant", tier.n(3000, 80_000), fam_mutants),
             Family::random("raw", tier.n(2000, 60_000), fam_raw),
             Family::fixed("corpus", corpus_cases(tier)),
